@@ -228,6 +228,9 @@ func (s *Sim) Yield(site string) {
 		max = 3 * time.Millisecond
 		s.Count("probe.yield_long", 1)
 	}
+	if s.Trace && os.Getenv("VERIF_TRACE_YIELDS") != "" {
+		s.Note("yield at %s", site)
+	}
 	s.Sleep("yield:"+site, 0, max)
 }
 
